@@ -183,10 +183,19 @@ def run_program(tid: int, program: list, pool: list, hook, out: list) -> None:
 
 
 def run_threads(programs: list[list], runs: list[int], pool: list) -> dict:
-    n = len(programs)
+    bodies = [(lambda hook, out, tid=tid, prog=prog: run_program(tid, prog, pool, hook, out))
+              for tid, prog in enumerate(programs)]
+    return run_bodies(bodies, runs)
+
+
+def run_bodies(bodies: list, runs: list[int]) -> dict:
+    """Run body(hook, out) of every thread under the baton: exactly one thread runs at a time and the
+    baton passes at switch points only (line events in kio's files, and wherever a body calls hook() -
+    the instrumented streams call it on every stream operation).  `runs` is the schedule."""
+    n = len(bodies)
     if n == 1:
         out: list = []
-        run_program(0, programs[0], pool, lambda: None, out)
+        bodies[0](lambda: None, out)
         return {"cases": out, "points": 0, "switches": 0, "abandoned": False}
     baton = Baton(n, runs)
     outs = [[] for _ in range(n)]
@@ -209,7 +218,7 @@ def run_threads(programs: list[list], runs: list[int], pool: list) -> dict:
         baton.wait_turn(tid)
         sys.settrace(gtrace)
         try:
-            run_program(tid, programs[tid], pool, lambda: baton.point(tid), outs[tid])
+            bodies[tid](lambda: baton.point(tid), outs[tid])
         finally:
             sys.settrace(None)
             baton.done(tid)
